@@ -82,6 +82,10 @@ impl SaslPlainMechanism {
 
 impl SaslPlainMechanism {
     fn validate_init(&self, init: SaslInit) -> Option<SaslCode> {
+        // Only the mechanism that was offered can be selected
+        if init.mechanism.as_str() != PLAIN {
+            return Some(SaslCode::Auth);
+        }
         let response = init.initial_response?.into_vec();
 
         let mut split = response.split(|b| *b == 0u8);
